@@ -14,7 +14,8 @@ import threading
 import types
 
 TOOL = 3
-LINE_FILES = ("frontend/backend.py", "frontend/api.py", "util/lru_cache.py", "tracer/graph.py", "torch/devicestack.py", "arrayapi/namespacestack.py")
+LINE_FILES = ("frontend/backend.py", "frontend/api.py", "util/lru_cache.py", "tracer/graph.py", "torch/devicestack.py", "arrayapi/namespacestack.py",
+              "tracer/compiler/python/__init__.py")  # (the code generator exec()s and then looks up the generated function: a window without any einx call in it)
 
 _real_Lock = threading.Lock
 _real_RLock = threading.RLock
@@ -39,6 +40,7 @@ class Sched:
         self.files = collections.Counter()
         self.spins = collections.Counter()
         self.deadlock = False
+        self.trace = None  # set to [] to record the location of every yield point (measuring run)
 
     def _pick(self, exclude=None):
         c = sorted(t for t in self.alive if t != exclude)
@@ -49,6 +51,8 @@ class Sched:
     def yield_point(self, tid, loc, force=False):
         self.count += 1
         self.files[loc[0]] += 1
+        if self.trace is not None:
+            self.trace.append(loc)
         if not force:
             if self.count not in self.switch_points and not (self.switch_prob and self.rng.random() < self.switch_prob):
                 return
